@@ -191,6 +191,30 @@ func arenas() []*arena {
 		ops(reflect.ValueOf(&h))
 		return [][]byte{append([]byte(nil), h.Header()...), append([]byte(nil), h.Trailer().Header()...)}
 	}})
+	// the same with header-name normalising switched off (names go out as the application
+	// spelled them; the line discipline must hold all the same)
+	as = append(as, &arena{name: "RequestHeader(no normalising)", typ: reflect.TypeOf(&protocol.RequestHeader{}), run: func(ops func(reflect.Value)) [][]byte {
+		var h protocol.RequestHeader
+		h.DisableNormalizing()
+		h.SetMethod("GET")
+		h.SetRequestURI("/")
+		ops(reflect.ValueOf(&h))
+		return [][]byte{append([]byte(nil), h.Header()...), append([]byte(nil), h.Trailer().Header()...)}
+	}})
+	as = append(as, &arena{name: "ResponseHeader(no normalising)", typ: reflect.TypeOf(&protocol.ResponseHeader{}), run: func(ops func(reflect.Value)) [][]byte {
+		var h protocol.ResponseHeader
+		h.DisableNormalizing()
+		ops(reflect.ValueOf(&h))
+		return [][]byte{append([]byte(nil), h.Header()...), append([]byte(nil), h.Trailer().Header()...)}
+	}})
+	as = append(as, &arena{name: "RequestTrailer(no normalising)", typ: reflect.TypeOf(&protocol.Trailer{}), run: func(ops func(reflect.Value)) [][]byte {
+		var h protocol.RequestHeader
+		h.DisableNormalizing()
+		h.SetMethod("POST")
+		h.SetRequestURI("/")
+		ops(reflect.ValueOf(h.Trailer()))
+		return [][]byte{append([]byte(nil), h.Header()...), append([]byte(nil), h.Trailer().Header()...)}
+	}})
 	as = append(as, &arena{name: "RequestTrailer", typ: reflect.TypeOf(&protocol.Trailer{}), run: func(ops func(reflect.Value)) [][]byte {
 		var h protocol.RequestHeader
 		h.SetMethod("POST")
